@@ -3453,7 +3453,8 @@ impl Engine for Feeflow {
     fn next_op(&mut self, rng: &mut Rng, step: u64) -> Option<String> {
         if step == 0 {
             let grace = rng.range(1, 5);
-            let genesis = T0 + 3_600_000_000_000;
+            // the genesis (and with it every epoch start) is not always a whole second
+            let genesis = T0 + 3_600_000_000_000 + *rng.pick(&[0u64, 0, 1, 300_000_000, 999_999_999]);
             let pfs = [0u64, 1, 3, 10, 30];
             let pf: Vec<u64> = (0..3).map(|_| *rng.pick(&pfs[1..])).collect();
             let vfs: Vec<u64> = (0..3).map(|_| *rng.pick(&pfs)).collect();
@@ -3853,6 +3854,13 @@ impl Feeflow {
                 1 => "stranger".to_string(),
                 _ => format!("u{}", rng.below(NUSERS as u64)),
             };
+            // now and then an address bonds in the very block that creates the epoch (same nanosecond): it
+            // bonded AFTER the epoch started (or exactly at its start) and is not to be paid for an earlier one
+            if rng.chance(1, 3) {
+                let fresh: Vec<u64> = (0..4u64).filter(|i| w.bond_start[*i as usize].is_none()).collect();
+                let u = if !fresh.is_empty() && rng.chance(4, 5) { *rng.pick(&fresh) } else { rng.below(4) };
+                self.g.setup.push(format!("u{u} bond {} {}", rng.below(2), 1_000 + rng.below(1_000_000)));
+            }
             return Some(format!("{who} newepoch"));
         }
         // the owner switches the distribution asset (scheduled rounds): routes towards the new asset are
